@@ -44,6 +44,9 @@ CHECKS = {
  "C13": dict(cat="model_checking", design="DESIGN.md section 5 C13",
    technique="TLA+ spec Layout.tla: gap grammar as generator, X.680 12.6 comment scanner as automaton, TLC checks every generated gap is consumed exactly; plans (gap form x adjacent token classes) from the model; real compiler run on re-laid-out inputs; results validated by TLC (Trace_C13.tla)",
    text="TLC checks on all gaps of the gap grammar up to 9 symbols that the comment scanner consumes a gap completely and stops at the next token, and that each of the 16 substituted gap forms is such a gap; it emits one plan per applicable (form, left token class, right token class). For each plan up to three boundaries of that class pair in generated module sets are re-laid out one at a time; additionally every boundary at once per form and seeded random subsets, on generated module sets and on real-world modules (after a tokenizer self-check). Status and bindings (doc attributes removed) must equal the original's."),
+ "C17": dict(cat="model_checking", design="DESIGN.md section 5 C17",
+   technique="TLA+ spec ErrorPos.tla: the input wrapper's offset/line bookkeeping as Slice actions, inductive invariant line = 1 + #LF before offset checked by TLC over all documents and slicings; corruption plans from the model; real compiler run on corrupted documents (literal and file, LF and CRLF); reported positions validated by TLC (Trace_C17.tla)",
+   text="TLC checks the bookkeeping invariant on every document up to 6 symbols over {other, LF, CR} under every slicing, and emits 1 344 corruption plans (assignment x token x delete/replace/insert x inserted material x LF/CRLF x literal/file). Each plan is applied to generated documents with and without comments; for every resulting syntax error TLC validates: offset within the input, line = 1 + line feeds before the offset, position not before the malformed assignment's first token and not after the inserted character that starts no token, Display / contextualize / ReportData name the same line, and the path is reported exactly for file sources."),
 }
 
 NOT_BUILT = "check not built yet (DESIGN.md section 13 build order)"
